@@ -31,11 +31,13 @@ func c12Run(maxMaxRetries int, symbolicIntervals bool) {
 	initial := 10 * time.Millisecond
 	maxInt := 40 * time.Millisecond
 	if symbolicIntervals {
-		switch vrt.Int("initial", 0, 2) {
+		switch vrt.Int("initial", 0, 3) {
 		case 0:
 			initial = 0
 		case 1:
 			initial = 30 * time.Millisecond
+		case 3:
+			initial = 450 * time.Microsecond // intervals off the millisecond grid
 		}
 		if vrt.Bool("smallmax") {
 			maxInt = 20 * time.Millisecond
@@ -186,12 +188,27 @@ func HarnessC12MaxElapsedTimed() {
 	r := Retry{MaxRetries: vrt.Int("maxretries", 1, 4), InitialInterval: initial, MaxInterval: time.Minute, Multiplier: 2, MaxElapsedTime: maxElapsed}
 	fails := vrt.Int("fails", 1, 5)
 	msg := message.NewMessage("m", nil)
+	// the message context: never cancelled / cancelled before the call / cancelled 5ms into the first back-off
+	cancelAt := vrt.Int("message.context.cancelled", 0, 2)
+	mctx, mcancel := context.WithCancel(context.Background())
+	defer mcancel()
+	msg.SetContext(mctx)
+	switch cancelAt {
+	case 1:
+		mcancel()
+	case 2:
+		go func() {
+			time.Sleep(5 * time.Millisecond)
+			mcancel()
+		}()
+	}
 	calls := 0
 	t0 := time.Now()
 	h := func(m *message.Message) ([]*message.Message, error) {
 		calls++
 		if vrt.Timed() {
 			vrt.Assert(time.Since(t0) <= maxElapsed, "no attempt starts after MaxElapsedTime has passed")
+			vrt.Assert(cancelAt == 0 || calls == 1, "no further attempt once the message context has ended")
 		}
 		if calls <= fails {
 			return nil, errScripted
@@ -207,7 +224,7 @@ func HarnessC12MaxElapsedTimed() {
 			vrt.Assert(calls == 1, "a back-off longer than the remaining time means no further attempt")
 		}
 	}
-	vrt.Assert(msg.Context().Err() == nil, "Retry leaves the message context usable")
+	vrt.Assert(cancelAt != 0 || msg.Context().Err() == nil, "Retry leaves the message context usable")
 }
 
 // HarnessC12Concurrent: two messages retried concurrently through the same Retry middleware instance do not
